@@ -180,16 +180,57 @@ def sympy_part(ob):
                 for g, obj_ in slots.items():
                     if g != GROUP[name]:
                         ob.check(f"sympy/setter/{spelled}/other-group-untouched/{g}{sid}", getattr(v, g) is obj_)
-            # in-place add with the same system (the functional result is compared symbolically)
-            v, w = mk(), cls(**{n: sympy.Symbol(n + "2", real=True) for n in names})
+            sympy_inplace(lambda oid, ok, d=None: ob.check(oid, ok, d), cls, s1, mom)
+
+
+def sympy_inplace(check, cls, s1, mom, prefix="sympy/inplace"):
+    """SymPy backend: after a += b, a -= b, a *= k, a /= k the object is the same object of the same class and system and *every stored
+    coordinate* is the corresponding coordinate of the functional result (expression identity, else numeric agreement at regular points)"""
+    import random
+    import sympy
+    from .. import arrays as AR
+    names = O.names_of(s1)
+    sid = f"[{','.join(s1)}|{'mom' if mom else 'gen'}]"
+    rng = random.Random(hash((tuple(s1), mom)) & 0xFFFFF)
+    points = []
+    for _ in range(3):
+        p1, p2 = AR.one(s1, rng), AR.one(s1, rng)
+        sub = {sympy.Symbol(n + "1", real=True): v_ for n, v_ in p1.items()}
+        sub.update({sympy.Symbol(n + "2", real=True): v_ for n, v_ in p2.items()})
+        points.append(sub)
+
+    def same(a, b):
+        if a == b:
+            return True
+        try:
+            for sub in points:
+                x, y = complex(sympy.N(a.subs(sub), 30)), complex(sympy.N(b.subs(sub), 30))
+                if not (abs(x.imag) < 1e-12 and abs(y.imag) < 1e-12 and AR.close(x.real, y.real, 1e-12, 1e-12)):
+                    return False
+            return True
+        except Exception:
+            return False
+
+    def mk(tag):
+        return cls(**{n: sympy.Symbol(n + tag, real=True) for n in names})
+    ops_ = [("+=", lambda a, b: a.__iadd__(b), lambda a, b: a + b), ("-=", lambda a, b: a.__isub__(b), lambda a, b: a - b),
+            ("*=2.5", lambda a, b: a.__imul__(2.5), lambda a, b: a * 2.5), ("*=-1.5", lambda a, b: a.__imul__(-1.5), lambda a, b: a * -1.5),
+            ("/=-4", lambda a, b: a.__itruediv__(-4.0), lambda a, b: a / -4.0)]
+    for opname, inplace, functional in ops_:
+        v, w = mk("1"), mk("2")
+        try:
+            fun = functional(mk("1"), w)
+            ident, sysb = id(v), AR.sysof(v)
+            r = inplace(v, w)
+        except Exception as e:
+            check(f"{prefix}/{opname}/defined{sid}", False, f"{type(e).__name__}: {str(e)[:150]}")
+            continue
+        check(f"{prefix}/{opname}/identity-class-system{sid}", r is v and id(v) == ident and type(v) is cls and AR.sysof(v) == sysb, dict(system=AR.sysof(v)))
+        for n in names:
             try:
-                fun = mk() + w
-                ident = id(v)
-                v += w
-                ok = id(v) == ident and type(v) is cls and all(sympy.simplify(getattr(v, n) - getattr(fun, n)) == 0 for n in ("x", "y"))
-                ob.check(f"sympy/inplace/+={sid}", ok)
+                check(f"{prefix}/{opname}/stored-{n}-equals-functional{sid}", same(getattr(v, n), getattr(fun, n)), dict(got=str(getattr(v, n))[:120], expected=str(getattr(fun, n))[:120]))
             except Exception as e:
-                ob.check(f"sympy/inplace/+={sid}", False, f"{type(e).__name__}: {str(e)[:150]}")
+                check(f"{prefix}/{opname}/stored-{n}-equals-functional{sid}", False, f"{type(e).__name__}: {str(e)[:150]}")
 
 
 def histories(ob, seed):
